@@ -9,6 +9,16 @@ enclosing activation are what they were.
 """
 
 
+class ModelBoomBase(BaseException):
+    """a raise that is not an Exception: no `% except Boom`, no include_error_handler catches it"""
+
+    def __init__(self, i, k, construct):
+        BaseException.__init__(self, "boom(%s,%d)" % (i, k))
+        self.i = i
+        self.k = k
+        self.construct = construct
+
+
 class ModelBoom(Exception):
     def __init__(self, i, k, construct):
         Exception.__init__(self, "boom(%s,%d)" % (i, k))
@@ -20,7 +30,8 @@ class ModelBoom(Exception):
 class Interp:
     def __init__(self, prog, fault=None, cache=None, include_handler=False, lookup_callouts=True):
         self.prog = prog
-        self.fault = tuple(fault) if fault else None
+        self.fault = tuple(fault[:2]) if fault else None
+        self.base = bool(fault and len(fault) > 2 and fault[2] == "base")
         self.cache = cache if cache is not None else {}
         self.include_handler = include_handler
         self.counts = {}
@@ -41,7 +52,7 @@ class Interp:
         self.order.append((i, n))
         if self.fault == (i, n):
             self.raised_in = self.active[-1]
-            raise ModelBoom(i, n, self.active[-1])
+            raise (ModelBoomBase if self.base else ModelBoom)(i, n, self.active[-1])
 
     def push(self):
         self.bufs.append([])
@@ -59,7 +70,7 @@ class Interp:
                 self.run_base()
             else:
                 self.run_main_body()
-        except ModelBoom as e:
+        except (ModelBoom, ModelBoomBase) as e:
             # everything above the top buffer has been popped by the finally blocks
             assert len(self.bufs) == 1, self.bufs
             return ("raised", e, "".join(self.bufs[0]))
@@ -110,6 +121,10 @@ class Interp:
     def n_str(self, n, env):
         self.callout(n["i"])
         self.w("s%d" % n["i"])
+
+    def n_callerflag(self, n, env):
+        # ${'C1' if caller else 'C0'}: a def called plainly has no caller; one invoked through <%call> has
+        self.w("C1" if env["caller"] else "C0")
 
     def n_loopidx(self, n, env):
         self.w("i%d" % env["loops"][-1][0])
